@@ -23,6 +23,10 @@ Oracles are written from the statements in properties.jsonl:
   (a link that forbids an edge it creates itself) the world is ill-posed and is not judged.
   In addition (independent of any reading of 5/6): two link definitions whose instances never define the same
   (type, atoms, version) and never replace the same attribute must give the same molecule in both definition orders.
+  "The link defined last wins" is per (type, atoms, version): a link that carries several interaction TYPES on one atom
+  tuple (bond + constraint, angle + virtual site ...) and a later link that gives one of them again -> exactly the later
+  link's interaction for that type, the other type keeps the earlier link's (multi_type_family, linear chains with mixed names,
+  .ff and dangling-.itp syntax, several file orders).
 """
 import itertools
 import json
@@ -284,7 +288,7 @@ def block_atom_matches(resname, an, at, names, rspec, extra):
 def link_edges(lk):
     es = []
     for t, keys, _, _ in lk["inters"]:
-        if t in EDGE_TYPES:
+        if t in EDGE_TYPES or lk.get("edges_from_all"):     # edges_from_all is NOT the contract (names a divergence, see explain)
             es += [(a, b, None) for a, b in zip(keys[:-1], keys[1:])]
     labelled = {frozenset((a, b)): lab for a, b, lab in lk["edges"]}
     out = {}
@@ -481,6 +485,15 @@ def explain(links, w, act, drop_version, spec):
     if spec["syntax"] == "mixed" and ff_before_itp(spec):
         flat = [dict(lk, inters=[(t, k, p_, None) for t, k, p_, _ in lk["inters"]]) for lk in links]
         alts.append(("c02-explicit-version-rewritten-when-itp-read-after-ff", lambda: expected_for(flat, w, act["edges"])[0]))
+    if spec["syntax"] == "mixed" and ff_before_itp(spec):
+        # links already known to the force field when a monomer .itp is finalised: consecutive atoms of EVERY interaction
+        # type (pairs, virtual sites, restraints ...) become bond edges of the link, hence part of its residue pattern
+        toks = file_order(spec)
+        last_itp = max(i for i, t in enumerate(toks) if t.startswith("itp"))
+        early = {id(lk) for i, t in enumerate(toks) if t in ("ff", "ff2") and i < last_itp for lk in spec.get({"ff": "links", "ff2": "links2"}[t], [])}
+        if any(id(lk) in early and t not in EDGE_TYPES for lk in links for t, _, _, _ in lk["inters"]):
+            marked = [dict(lk, edges_from_all=True) if id(lk) in early else lk for lk in links]
+            alts.append(("c02-ff-link-edges-from-every-interaction-type-when-itp-read-after", lambda: expected_for(marked, w, act["edges"])[0]))
     for key, fn in alts:
         if not diff(fn(), act, drop_version):
             return key
@@ -595,6 +608,10 @@ def write_world_files(scratch, worlds, name):
 
 KNOWN_CLASSES = ("c02-link-without-resname-never-applied", "c02-vetoes-consult-evolving-molecule", "c02-definition-order-dependence",
                  "c02-explicit-version-rewritten-when-itp-read-after-ff", "c02-non-edge-order-counted-from-its-own-atom")
+KEY_NOTES = {"c02-ff-link-edges-from-every-interaction-type-when-itp-read-after":
+             "  {the generated molecule is reproduced exactly by: a .ff link that is already known when a monomer .itp is finalised gets bond edges "
+             "from the consecutive atoms of EVERY interaction type (pairs, virtual sites, restraints), so its residue pattern -- and where it applies -- "
+             "depends on the order in which the files are read}"}
 _REAL = None
 
 
@@ -771,7 +788,7 @@ def c02_job(args):
                         out["illposed"] += 1
                     else:
                         key = explain(links, w, act, drop_version, spec)
-                        note(key, "generated molecule differs from link_instances: " + "; ".join(texts[:4]), inputs, "\n".join(texts))
+                        note(key, "generated molecule differs from link_instances: " + "; ".join(texts[:4]) + KEY_NOTES.get(key, ""), inputs, "\n".join(texts))
                 if check_windows and spec["syntax"] == "itp" and w["resids"] == list(range(1, w["n"] + 1)) and \
                         w["edges"] == [(i, i + 1) for i in range(w["n"] - 1)]:
                     bad = window_clause(spec, w, act)
@@ -1124,6 +1141,7 @@ def multi_type_family(thorough):
         spec(dang("bc"), [later("bc", "both", (AB, AB))], ["itp:A", "ff", "itp:B"], tag="bc dangling of A, both again for any, dangling of B")
         spec({}, [generic("bcp"), later("bcp", "both", ("A", "B"))], ["itp", "ff"], tag="bcp ff read after .itp, bond+constraint again for A->B")
         spec({}, [generic("av"), later("av", 0, ("B", AB))], ["ff", "itp"], tag="av ff, angle again for B->any")
+        spec({}, [generic("av"), later("av", 1, ("B", AB))], ["ff", "itp"], tag="av ff, virtual site again for B->any, .itp read after (witness of K25)")
         spec(dang("av3"), [later("av3", 1, (AB, "B", AB))], ["itp", "ff"], tag="av3 dangling, second type again around B")
         spec({}, [mt_link("YX", ("bonds",), 1, (AB, AB), tag="first bond only"), later("bc", "both", ("B", "B"))], ["ff", "itp"],
              tag="single-type first, bc later for B-B")
@@ -1308,17 +1326,36 @@ def run_c02(ctx, res):
                      "2- and 3-residue links), on graphs with <= %s nodes: %d evaluations, %d non-trivial; "
                      "every 6th (thorough: every) 4-residue link over ordered triples x {path, star, ring}; labelled [edges] links; all unordered pairs of a pool of 12 links in BOTH "
                      "definition orders; %d polyply-style monomer .itp worlds with dangling bonds/angles/dihedrals/constraints (`Y +X`, `X Y +X`, "
-                     "`Y +X ++X`, ...); monomers from .itp + links from .ff in both reading orders.  x residue graphs: every connected graph on <= %d "
+                     "`Y +X ++X`, ...); monomers from .itp + links from .ff in both reading orders; "
+                     "%d force fields 'same atoms, several interaction types, later redefinition': a first link with 2-3 interaction TYPES on ONE atom tuple "
+                     "(bonds+constraints, bonds+constraints+pairs on `Y +X`; angles+virtual_sites2 on `Y +X +Y` and `Y +X ++X`%s), written as a .ff link (atom-wise or link-level resname A|B) or as dangling interactions of the monomer .itp files (%s), and a link "
+                     "defined LATER that gives the first / the second / both of these types again on the same atoms for some residue names only (%s), in the same "
+                     ".ff after it, in a second .ff, or in the .ff read after the monomers; file orders {links.ff,*.itp | *.itp,links.ff | links.ff,*.itp,links2.ff | "
+                     "%sA.itp,links.ff,B.itp}%s; x %d linear chains (%s) = %d evaluations, in %d of them a later link "
+                     "redefines an interaction of an earlier one, in %d of these another interaction of a several-types tuple is defined by its first link only "
+                     "(expected: per atom tuple and type exactly the last-defined matching link's parameters, other types untouched).  "
+                     "x residue graphs: every connected graph on <= %d "
                      "nodes (networkx atlas) x every resname assignment over {A,B} x {resids 1..n in node order, one seeded shuffled assignment} = %d "
                      "graph worlds (+ %d with linktype-labelled residue edges for the labelled links, + %d linear chains of length 5..%d for the dangling-window clause)"
                      % (n_ff, "; all triples of the pool" if ctx.thorough else "",
                         len(fam), "5" if ctx.thorough else "3 (3-residue links: 4)", sum(o["evaluations"] for o in fam), sum(o["nontrivial"] for o in fam),
-                        2 * len(ITP_DANGLING) + 2, nmax, len(sets["plain"]), len(sets["label"]), len(sets["paths"]), 8 if ctx.thorough else 6))
+                        2 * len(ITP_DANGLING) + 2,
+                        len(mt), "; dihedrals+dihedral_restraints on `X Y +X +Y`" if ctx.thorough else "",
+                        "A and B with different parameters, A only, a dangling angle listed between the two types" if ctx.thorough else "A and B with different parameters",
+                        "B-B, A->B, A-A, any-any, B->any; 3-residue: middle B, first A" if ctx.thorough else "8 hand-picked combinations over A-A, B-B, A->B, B->any, any-any, middle B",
+                        "links.ff,links2.ff,*.itp | " if ctx.thorough else "",
+                        "; plus single-type link first / several-types link later, and three definitions (generic, specific, generic again in a second file)" if ctx.thorough
+                        else "; incl. one single-type link first / several-types link later",
+                        len(sets["chains"]), "every name assignment over {A,B} for 2..6 residues" if ctx.thorough else "ten mixed A/B sequences, 2..6 residues",
+                        sum(o["evaluations"] for o in mt), sum(o["overridden"] for o in mt), sum(o["partial"] for o in mt),
+                        nmax, len(sets["plain"]), len(sets["label"]), len(sets["paths"]), 8 if ctx.thorough else 6))
         res.rule = ("world = (force-field files, residue graph); MapToMolecule.run_molecule then ApplyLinks.run_molecule on the real tree; interactions, "
                     "edges and atom attributes of meta.molecule compared in both directions with link_instances (oracle from the statement).  "
                     "Non-trivial iff at least one link instance is applied AND at least one assignment whose induced residue subgraph equals the "
                     "link's pattern is rejected (names, order, atom identification, veto) in that world.  %d worlds where no consistent molecule exists "
-                    "(a link forbidding what it creates) were not judged." % illposed)
+                    "(a link forbidding what it creates) were not judged.  Worlds of the 'several interaction types on one atom tuple' family: .itp monomers "
+                    "+ .ff link files given to load_ff_library in the stated file order (= order of definition; dangling interactions count where their "
+                    "monomer file is read); the same oracle (later DEFINED link wins per (type, atoms, version), every other key keeps its only definition)." % illposed)
         res.exhaustive = True
         res.assumptions.append("bounded: consecutive atoms of bonds/angles/dihedrals/constraints are bond edges (vermouth convention); resids contiguous (non-contiguous resids are a recorded defect outside this quantifier)")
         res.assumptions.append("bounded: [non-edges]/[patterns] are read against the GENERATED molecule's edges / the block attributes of the identified atoms; contract checked as consistency of the generated molecule")
